@@ -129,10 +129,16 @@ def ckpt_case(c):
                 g, consts, tret = setupFromFile(d, **kw)
                 name = g.currentLayout
             lay = g.getLayout(name)
-            bits = np.ascontiguousarray(g._f).view(np.uint64)
+            bits = np.ascontiguousarray(g._f).view(np.uint64).copy()
+            # the loaded grid is then used: a layout change and back must leave the loaded field where it was (the field
+            # must live in the grid's own memory blocks, not only in the array the accessors show)
+            other = [nm for nm in ('flux_surface', 'v_parallel', 'poloidal') if nm != name][c['seed'] % 2]
+            g.setLayout(other)
+            g.setLayout(name)
+            bits2 = np.ascontiguousarray(g._f).view(np.uint64).copy()
+            same_after = bool(bits2.shape == bits.shape and (bits2 == bits).all())
             return (name, [int(x) for x in lay.starts], [int(x) for x in lay.shape],
-                    [int(x) for x in lay.nprocs], bits.copy(),
-                    None if tret is None else (type(tret).__name__, float(tret)))
+                    [int(x) for x in lay.nprocs], bits, None if tret is None else (type(tret).__name__, float(tret)), same_after)
         R2 = MPI.run(nr2, rd, seed=c['seed'] + 1)
         if R2.outcome != 'ok':
             out['read'] = (R2.outcome, R2.detail[:300], None)
@@ -141,7 +147,7 @@ def ckpt_case(c):
         want_t = c['time'] if c.get('time') is not None else max(times)
         ie = times.index(want_t)
         ranks = []
-        for r, (name, starts, shape, nprocs, bits, tret) in enumerate(R2.results):
+        for r, (name, starts, shape, nprocs, bits, tret, same_after) in enumerate(R2.results):
             ordr = LAYOUTS[name]
             # oracle block: from the global array of the expected time, in the loaded layout's dims order
             G = _global_bits(npts, c['seed'], ie).transpose(ordr)
@@ -150,7 +156,7 @@ def ckpt_case(c):
             tags = [int(x) for x in (bits.ravel() & np.uint64(0xFFFFF))]
             tsel = sorted(set(int(x) for x in ((bits.ravel() >> np.uint64(20)) & np.uint64(0xF))))
             ranks.append({'rank': r, 'layout': name, 'starts': starts, 'shape': shape, 'nprocs': nprocs,
-                          'exact': exact, 'tags': tags, 'tsel': tsel, 'tret': tret})
+                          'exact': exact, 'tags': tags, 'tsel': tsel, 'tret': tret, 'same_after': same_after})
         out['read'] = ('ok', '', ranks)
         return out
     finally:
@@ -271,6 +277,10 @@ def check_ckpt(chk, cases, results):
                         '(loaded checkpoint(s) %r; the latest / requested one is expected) case %r'
                         % (rr['rank'], rr['nprocs'], want_t, loaded_t, c))
                 chk.violation(key, what, rep)
+            if key is None and not rr.get('same_after', True):
+                chk.violation('checkpoint-load:field-lost-at-layout-change',
+                              'rank %d of %r: the block loaded from the checkpoint is exact, but after setLayout to another layout and back '
+                              'the grid no longer holds it (case %r)' % (rr['rank'], rr['nprocs'], c), rep)
             if c['loader'] == 'setup' and key is None:
                 # a time read from a file name is an int when integral (a4e5b38); a requested timepoint is returned as given
                 if c['time'] is not None:
